@@ -31,6 +31,19 @@ CLAIMED["C08"] = {
     "ref": "DESIGN.md section 5 (C08)",
 }
 
+CLAIMED["C06"] = {
+    "text": "Proof: _parse_stat_file (through its real decorators), name, ppid, status, cpu_times, create_time, cpu_num, "
+            "terminal, uids, gids, num_threads are verified against the kernel record grammars for every comm byte "
+            "string of 0-15 bytes (parentheses, spaces, newlines, non-UTF-8) and every counter magnitude: name = bytes "
+            "between the first '(' and the last ')', each field the token at its documented index, state letter table, "
+            "ticks/CLK, status-file keys taken from their own lines. threads() and num_ctx_switches() are covered by "
+            "bounded sweeps only (labelled bounded in evidence).",
+    "note": "stat/status record grammars assumed (kernel contract), stated with the same uninterpreted split() the "
+            "library model uses; re.findall modelled for the literal+(\\d+) pattern family; floats as reals; undecided "
+            "string obligations fall back to a witness search whose hits are replayed on the real code.",
+    "ref": "DESIGN.md section 5 (C06)",
+}
+
 NOT_YET = "check not built yet (work in progress, see DESIGN.md section 7)"
 NA = {}
 
